@@ -29,8 +29,10 @@ func TestDebugNSTPrice(t *testing.T) {
 		fmt.Printf("%s -> ok=%v %.120s\n", a.String(), o.OK, o.Note)
 		return o
 	}
-	step(Action{Kind: "depositNST", Actor: 0, Asset: 2, Amount: "32"})
-	step(Action{Kind: "depositNST", Actor: 1, Asset: 2, Amount: "32"})
+	if os.Getenv("VERIF_DEBUG_NST") == "early" {
+		step(Action{Kind: "depositNST", Actor: 0, Asset: 2, Amount: "32"})
+		step(Action{Kind: "depositNST", Actor: 1, Asset: 2, Amount: "32"})
+	}
 	for i := 0; i < 4; i++ {
 		step(Action{Kind: "nextBlock", Dt: 2})
 	}
@@ -40,7 +42,9 @@ func TestDebugNSTPrice(t *testing.T) {
 	for k := 0; k < 3; k++ {
 		step(Action{Kind: "price", Key: k, Feeder: f.ID, Based: 3, PNonce: 1, Dets: []string{"1"}, Prices: []string{price}, Ts: m.C.Time.UTC().Format("2006-01-02 15:04:05"), Dec: 0, Src: 1})
 	}
-	for i := 0; i < 6; i++ {
+	step(Action{Kind: "nextBlock", Dt: 2})
+	step(Action{Kind: "depositNST", Actor: 0, Asset: 2, Amount: "32"})
+	for i := 0; i < 30; i++ {
 		if err := m.Step(Action{Kind: "nextBlock", Dt: 2}); err != nil {
 			fmt.Printf("HALT: %v\n", err)
 			if h, ok := err.(*sim.Halt); ok {
